@@ -43,9 +43,9 @@ def gen_cases(ctx, cfgname, consts, timeout=1500):
 
 def tier_consts(ctx):
     if ctx.quick:
-        return {"Families": '{"gen", "lev"}', "NSet": "{1, 2, 3}", "MSet": "{2, 3, 4}",
+        return {"Families": '{"gen", "lev"}', "NSet": "{1, 2, 3}", "MSet": "{2, 3, 4, 7}",
                 "KMat": 23, "KVar": 13, "Seed": ctx.seed}
-    return {"Families": '{"gen", "lev"}', "NSet": "{1, 2, 3, 4}", "MSet": "{2, 3, 4, 5}",
+    return {"Families": '{"gen", "lev"}', "NSet": "{1, 2, 3, 4}", "MSet": "{2, 3, 4, 5, 6, 8}",
             "KMat": 29, "KVar": 7, "Seed": ctx.seed}
 
 
